@@ -788,11 +788,23 @@ BEAT_CFG = ("SPECIFICATION Spec\nCONSTANTS PI = %d PT = %d MaxNow = %d Delays = 
             "INVARIANTS NoMissedPing NoMissedTimeout TimeoutExact AnsweredNeverClosed PingSchedule\nCHECK_DEADLOCK FALSE\n")
 
 
+BEAT3_CFG = ("SPECIFICATION Spec\nCONSTANTS PI = %d PT = %d MaxNow = %d Gaps = {99, 1, 2, 3, 4, 5, 6} Deviations = %s\nVIEW view\n"
+             "INVARIANTS %s\nCHECK_DEADLOCK FALSE\n")
+
+
 @prop("C07")
 def c07(ctx):
     q = ctx.quick
     for pi, pt in ((3, 2), (2, 3)) if q else ((3, 2), (2, 3), (4, 4), (1, 5)):
         M.tlc_model(ctx, "Beat", BEAT_CFG % (pi, pt, 16 if q else 24, "{99, 0, 1, 2, 3, 4}"), "beat_%d_%d" % (pi, pt))
+        # revision 3: the client pings (gaps from a grid that includes the deadline itself), one deadline timer, the tick window
+        M.tlc_model(ctx, "Beat3", BEAT3_CFG % (pi, pt, 16 if q else 24, "{}", "R3_Exact R3_NotLate R3_AcceptedBefore"), "beat3_%d_%d" % (pi, pt))
+    sens = {}
+    for dev in ("DeadlinePT", "NoRefresh", "StaleTick"):
+        sens[dev] = M.tlc_expect_violation(ctx, "Beat3", BEAT3_CFG % (3, 2, 16, '{"%s"}' % dev, "R3_Exact"), "beat3_dev_" + dev, "R3_Exact")
+    ctx.extra["beat3_deviations_detected"] = sens
+    if not all(sens.values()):
+        raise M.Inconclusive("Beat3.tla is not sensitive to %s" % [k for k, v in sens.items() if not v])
     evs = eng_run(ctx, ["life"] if not q else [], 120, 1500, ("beat", "direct"))
     ctx.assumptions = ENG_ASSUME + ["a pong accepted at the very instant of the deadline: both outcomes (and both at once) are admitted",
                                     "'the server sends a ping' is timed by the packetCreate event of the ping"]
